@@ -93,6 +93,14 @@ FAULTS = [
     Fault("r6-as-accumulator", "implicit-accumulator", E, "\tldf [[r6]], ac0"),
     Fault("external-dot", "invalid-assignment", E, "\tnop\n[[.]] == 3000", where="top", phase="parse"),
     Fault("too-long-char-literal", "too-long-string", E, "\tmov #[[\"яя]], r0", where="utf8"),
+    Fault("negative-89", "invalid-number", E, "\t.word -[[89]]", phase="parse"),
+    Fault("include-directory", "io-error", E, "\t[[.include]] /./"),
+    Fault("insert-directory", "io-error", E, "\t[[insert_file]] \".\""),
+    Fault("tape-name-too-long", "too-long-string", E, "\t[[make_wav]] \"t§.wav\", \"seventeen letters!\""),
+    Fault("dangling-minus", "unexpected-value", E, "\t.word 1 [[-]]\n"),
+    Fault("percent-as-value", "unexpected-value", E, "\t.word [[%]]1"),
+    Fault("call-as-value", "unexpected-value", E, "\t.word [[1]](2)"),
+    Fault("hash-as-value", "unexpected-value", E, "\tmov #[[#]]2, r0"),
     # criticals: parsing stops here
     Fault("unterminated-string", "unterminated-string", C, "\t.ascii [[/]]abc", phase="parse"),
     Fault("unterminated-char", "unterminated-string", C, "\tmov #[[']]\n", phase="parse"),
@@ -113,6 +121,8 @@ WARNINGS = [
     Fault("title-directive", "not-implemented", W, "\t[[.title]] some text here"),
     Fault("ident-directive", "not-implemented", W, "\t[[.ident]] /v1/"),
     Fault("page-directive", "not-implemented", W, "\t[[.page]]\n"),
+    Fault("sbttl-directive", "not-implemented", W, "\t[[.sbttl]] sub title text"),
+    Fault("nlist-directive", "not-implemented", W, "\t[[.nlist]]\n"),
     Fault("label-fixup", "label-fixup", W, "\t[[br]] 1 + 2", pre=["sc§:", "1:\tnop"], where="adjacent"),
     Fault("hash-in-emt", "excess-hash", W, "\temt [[#1]]"),
     Fault("mnemonic-like-label", "suspicious-name", W, "[[mov:]]\tnop", where="top", warn_flag="suspicious-name"),
